@@ -55,9 +55,10 @@ pub fn main() {
                 if let Some(x) = cfg.get("active_high").and_then(|x| x.as_bool()) { kb.set_columns_active_high(x); }
             }
         }
+        let strobe_via_snapshot = v.get("cfg").and_then(|c| c.get("strobe_via_snapshot")).and_then(|x| x.as_bool()).unwrap_or(false);
         let mut out = Vec::new();
         if let Some(ops) = v.get("ops").and_then(|o| o.as_array()) {
-            for op in ops {
+            for (op_index, op) in ops.iter().enumerate() {
                 let name = op.get(0).and_then(|n| n.as_str()).unwrap_or("");
                 let a1 = op.get(1).and_then(|n| n.as_u64()).unwrap_or(0);
                 let b1 = op.get(1).and_then(|n| n.as_bool()).unwrap_or(a1 != 0);
@@ -65,6 +66,14 @@ pub fn main() {
                 match name {
                     "press" => kb.press_matrix_code(a1 as u8, &mut mem),
                     "release" => kb.release_matrix_code(a1 as u8, &mut mem),
+                    "kol" | "koh" if strobe_via_snapshot && op_index < 2 => {
+                        // the initial strobe state arrives INSIDE a snapshot that is loaded into a fresh matrix (whose own
+                        // polarity is the default): no KOL/KOH write follows the load
+                        let mut snap = kb.snapshot_state();
+                        if name == "kol" { snap.kol = a1 as u8; } else { snap.koh = (a1 as u8) & 0x0F; }
+                        kb = KeyboardMatrix::new();
+                        kb.load_snapshot_state(&snap);
+                    }
                     "kol" => { kb.handle_write(0xF0, a1 as u8, &mut mem); }
                     "koh" => { kb.handle_write(0xF1, a1 as u8, &mut mem); }
                     "tick" => { extra = json!({"ev": kb.scan_tick(&mut mem, b1)}); }
